@@ -32,6 +32,7 @@ type HarnessSpec struct {
 	Clause    string `json:"clause,omitempty"`
 	ExactReal bool   `json:"exact_real,omitempty"`
 	FeasMs    int    `json:"feas_timeout_ms,omitempty"`
+	NoUF      bool   `json:"no_uf,omitempty"`
 }
 
 type Spec struct {
@@ -43,6 +44,7 @@ type Spec struct {
 	Outside     []string          `json:"outside"`
 	Clauses     map[string][]string `json:"clauses,omitempty"`
 	Merge       []string          `json:"merge,omitempty"` // pure functions summarised by ITE merging
+	UFStubs     []string          `json:"uf_stubs,omitempty"`
 	StaticTypeSwitch string        `json:"static_typeswitch,omitempty"` // package prefix for the structural type-switch check
 	StaticLoad  []string          `json:"static_load,omitempty"`       // extra package patterns to load for it
 	StaticExclude []string        `json:"static_exclude,omitempty"`
@@ -253,13 +255,17 @@ func cmdRun(args []string) int {
 	for _, m := range spec.Merge {
 		mergeSet[m] = true
 	}
+	ufSet := map[string]bool{}
+	for _, m := range spec.UFStubs {
+		ufSet[m] = true
+	}
 	baseCfg := func(h *HarnessSpec) *interp.Config {
 		to := h.TimeoutMs
 		if to == 0 {
 			to = 20000
 		}
 		return &interp.Config{InitPkgs: interp.DefaultInitPkgs, TrackPkgs: []string{"github.com/paulmach/orb", "github.com/paulmach/protoscan"},
-			MaxSteps: h.MaxSteps, FloatFP: h.FloatFP, TimeoutMs: to, SolverBin: h.Solver, MaxPaths: h.MaxPaths, Trace: *trace, MergeFuncs: mergeSet, ExactReal: h.ExactReal, FeasMs: h.FeasMs}
+			MaxSteps: h.MaxSteps, FloatFP: h.FloatFP, TimeoutMs: to, SolverBin: h.Solver, MaxPaths: h.MaxPaths, Trace: *trace, MergeFuncs: mergeSet, ExactReal: h.ExactReal, FeasMs: h.FeasMs, UFStubs: ufFor(h, ufSet)}
 	}
 	// enumerate jobs
 	var jobs []job
@@ -613,6 +619,13 @@ func cmdRun(args []string) int {
 		spec.Property, *tier, len(jobs), total.Paths, total.Obligations, total.Discharged, solver.Queries, solver.Sat, solver.Unsat, solver.Unknown,
 		float64(solver.Nanos)/1e9, wall, nViol, len(knownHit), exit)
 	return exit
+}
+
+func ufFor(h *HarnessSpec, set map[string]bool) map[string]bool {
+	if h.NoUF {
+		return nil
+	}
+	return set
 }
 
 func firstLine(s string) string {
